@@ -137,7 +137,15 @@ def run_oracle(pid, mode, payload, timeout=600):
     env["VF_REPO"] = repo
     env["PYTHONPATH"] = repo + ":" + VERIF + (":" + env["PYTHONPATH"] if env.get("PYTHONPATH") else "")
     env["PYTHONDONTWRITEBYTECODE"] = "1"
-    p = subprocess.run(cmd, input=json.dumps(payload), capture_output=True, text=True, timeout=timeout, env=env, cwd=repo)
+    # (run in a scratch directory: the code under test may write files such as mapping.svg into the
+    #  working directory, which must never be /repo or /verif)
+    import tempfile, shutil
+
+    scratch = tempfile.mkdtemp(prefix="vf_oracle_")
+    try:
+        p = subprocess.run(cmd, input=json.dumps(payload), capture_output=True, text=True, timeout=timeout, env=env, cwd=scratch)
+    finally:
+        shutil.rmtree(scratch, ignore_errors=True)
     if p.returncode != 0:
         return {"error": (p.stderr or p.stdout)[-2000:]}
     try:
